@@ -8,6 +8,8 @@ CLAIMED = {
          "Real coordinator, pool threads, channel and preprocessor run under a seeded scheduler that owns every synchronisation point (task begin, task end before send, coordinator poll, optional io points); every generated path is pre-populated with stale bytes. Holds for the sampled (project, inputs, K, schedule) tuples; all labelled DAGs on <=4 files are swept in every run."),
  "C03": ("exploration", "5.C03", "seeded schedule search; deterministic livelock/step-cap/watchdog detectors; execution counters (marker commands) and R-seq completeness",
          "Termination is decided without wall-clock: after the last delivery the coordinator must leave each loop on its next poll. Exactly-once is counted through side-effect markers of run commands. Sampled digraphs (cyclic ones included), duplicate and aliased inputs, K in {1,2,3,4,8,16}."),
+ "C04": ("fault_enumeration", "5.C04", "enumerated grid fault kind x position x mode, each cell instantiated on seeded DAG projects under seeded schedules; real OS faults (EISDIR, ENOENT, ENOSPC via /dev/full, unwritable /proc target, invalid UTF-8); CLI exit status cross-check",
+         "228 cells (17 fault kinds x 5 positions x the modes in which the fault is meaningful), >= 12 instances per cell per quick run; the failing result reaches the coordinator first / last / between others with and without tasks in flight (early return and Drop drain). RLIMIT_FSIZE (F8) cells are not implemented in this round (see DESIGN.md)."),
  "C05": ("exploration", "5.C05", "seeded schedule search over cyclic digraph projects; verdict + liveness + acyclic part vs R-seq",
          "Self-loops, 2-cycles, longer cycles, upstream files and bystanders under seeded schedules; thorough tier sweeps every labelled digraph with self-loops on <=4 files."),
  "C06": ("exploration", "5.C06", "seeded histories (build, verify, single-point tampering / flag flip / source edit, verify) with every invocation under the controller; oracle = fresh R-seq of the current sources + inode/mtime-exact snapshot diff",
@@ -24,7 +26,6 @@ CLAIMED = {
 
 NA = {
  "C01": "claimed later in this build (R-spec engine not yet registered)",
- "C04": "claimed later in this build (fault grid engine not yet registered)",
  "C11": "claimed later in this build (inputs engine not yet registered)",
  "C17": "claimed later in this build (shell engine not yet registered)",
  "C18": "claimed later in this build (fuzz engine not yet registered)",
